@@ -13,11 +13,12 @@ src = f"/tmp/seed/{pid}"
 checks = [pid]
 if "--src" in sys.argv: src = sys.argv[sys.argv.index("--src") + 1]
 if "--checks" in sys.argv: checks = sys.argv[sys.argv.index("--checks") + 1].split(",")
-dst = os.path.join(ROOT, "seeded", f"{pid}-{k}")
+name = sys.argv[sys.argv.index("--as") + 1] if "--as" in sys.argv else k      # keep under another number (second round of seeds)
+dst = os.path.join(ROOT, "seeded", f"{pid}-{name}")
 os.makedirs(dst, exist_ok=True)
 if os.path.exists(f"{src}/patch{k}.diff"):
     shutil.copy(f"{src}/patch{k}.diff", f"{dst}/patch.diff"); shutil.copy(f"{src}/demo{k}.py", f"{dst}/demo.py")
-scratch = f"/tmp/seedrun/{pid}-{k}"
+scratch = f"/tmp/seedrun/{pid}-{name}"
 shutil.rmtree(scratch, ignore_errors=True); os.makedirs(scratch)
 repo, verif = f"{scratch}/repo", f"{scratch}/verif"
 def sh(cmd, **kw):
@@ -29,7 +30,7 @@ env = dict(os.environ, PYTHONPATH=f"{repo}/src", PYTHONHASHSEED="0", PYTHONDONTW
 def demo():
     p = subprocess.run(["/venv/bin/python", f"{dst}/demo.py"], env=env, capture_output=True, text=True, cwd=scratch, timeout=900)
     return p.returncode, (p.stdout + p.stderr)[-600:]
-meta = {"property": pid, "seed": f"{pid}-{k}", "ran": []}
+meta = {"property": pid, "seed": f"{pid}-{name}", "ran": []}
 old = {}
 if os.path.exists(f"{dst}/meta.json"):
     try: old = json.load(open(f"{dst}/meta.json"))
